@@ -68,6 +68,39 @@ impl LowLevel {
 		})
 	}
 
+	/// One POST over a fresh HTTP/1.1 connection (hyper client) to the low-level service.
+	pub async fn http_post(&self, body: Vec<u8>) -> crate::memsrv::HttpReply {
+		use http_body_util::BodyExt;
+		let fail = |e: String| crate::memsrv::HttpReply { status: 0, headers: vec![], body: vec![], error: Some(e) };
+		let (client, server) = tokio::io::duplex(self.duplex_capacity);
+		self.serve(server);
+		let (mut send, conn) = match hyper::client::conn::http1::handshake(hyper_util::rt::TokioIo::new(client)).await {
+			Ok(x) => x,
+			Err(e) => return fail(format!("handshake: {e}")),
+		};
+		tokio::spawn(async move {
+			let _ = conn.await;
+		});
+		let req = http::Request::builder()
+			.method("POST")
+			.uri("/")
+			.header("host", "localhost")
+			.header("content-type", "application/json")
+			.header("content-length", body.len())
+			.body(http_body_util::Full::new(bytes::Bytes::from(body)))
+			.expect("request");
+		match send.send_request(req).await {
+			Ok(resp) => {
+				let status = resp.status().as_u16();
+				match resp.into_body().collect().await {
+					Ok(b) => crate::memsrv::HttpReply { status, headers: vec![], body: b.to_bytes().to_vec(), error: None },
+					Err(e) => fail(format!("body: {e}")),
+				}
+			}
+			Err(e) => fail(format!("send: {e}")),
+		}
+	}
+
 	pub async fn ws(&self) -> Result<RawWs, String> {
 		let (client, server) = tokio::io::duplex(self.duplex_capacity);
 		self.serve(server);
